@@ -277,6 +277,10 @@ def run(argv):
                 chk.traces += 1
     late_override_check(chk, models)
     constants_check(chk)
+    # user overrides given on the command line (project with an element-replacement table, ices of replaced elements): the
+    # rendered rate constants must be those of the API rendering with the same tables
+    from . import c20
+    c20.process(chk, [c20.replaced_binding_desc(rng)], [])
     chemistrydata.user_binding_energy.clear()
     chemistrydata.user_photon_yield.clear()
     return chk.finish()
